@@ -102,6 +102,16 @@ func c06gen(r *gen.R, testing bool) c06case {
 	if c.lvl == slog.AlwaysLevel && strings.Trim(c.msg, "\n\r \t") == "" {
 		c.msg = "x" + c.msg
 	}
+	// attributes named like the envelope fields are ordinary attributes in colored mode; a "time" key holding
+	// a time.Time is rendered by the timestamp path
+	if r.P(12) {
+		k := gen.Pick(r, []string{"time", "time", "level", "msg", "zzz-last"})
+		v := r.Scalar("time", o)
+		if k != "time" && r.Bool() {
+			v = r.Scalar("str", o)
+		}
+		c.kvs = append(c.kvs, gen.KV{Key: k, Val: v})
+	}
 	return c
 }
 
@@ -465,6 +475,9 @@ func c06check(payload []byte, cs c06case, testing bool) (out []tv) {
 			if !p.HasKey || p.Key != l.Key {
 				out = append(out, tv{"layout-attrs", "order-or-key", fmt.Sprintf("token #%d is %q, expected key %q (ascending key order)", i, clip(p.Key+"="+p.Raw, 80), l.Key)})
 				break
+			}
+			if l.Key == "time" && l.Val.Kind == "time" {
+				continue // printed in the record's timestamp layout; which layout is not part of this property
 			}
 			if ok, why := match.Text(p, l.Val, true); !ok {
 				out = append(out, tv{"layout-value", valueClass(l.Val), fmt.Sprintf("%s: %s", clip(p.Key, 60), why)})
